@@ -2,21 +2,27 @@
 """C20 — problem wrappers / loaders transparent; counters and capability flags truthful.
 See DESIGN.md §6 C20.  Flow: translator (gen_c20.py) → lake build of the theorems + driver → plug-ins
 and harness built from the working tree → op sequences through the real code and through the Lean
-driver → monitors (the property restated on the real code's outputs) → compile probes."""
+driver → monitors (the property restated on the real code's outputs, from the op lines and the
+documented rules only) → compile probes → required-coverage list.
+
+Monitors never use a quantity computed by the code under test to decide what to expect: capability
+flags are derived from the op line (which members / table entries exist), wrapper semantics (alias vs.
+snapshot) from the history of ops, projection values from the plug-ins' parameters.  Every exemption is
+counted by name in the evidence (`coverage.exemptions`)."""
+import collections
+import copy
 import hashlib
 import json
-import math
 import os
 import random
 import re
-import subprocess
 import sys
 import time
 from concurrent.futures import ThreadPoolExecutor
 
 sys.path.insert(0, os.path.dirname(os.path.abspath(__file__)))
 import common as C
-from common import f2h
+from common import f2h, h2f
 
 PID = 'C20'
 HARNESS = os.path.join(C.VERIF, 'harness')
@@ -43,13 +49,16 @@ OCP_OPTIONAL = ['get_D', 'get_D_N', 'eval_h', 'eval_h_N', 'eval_add_Q_N', 'eval_
                 'eval_grad_constr_prod', 'eval_grad_constr_prod_N', 'eval_add_gn_hess_constr',
                 'eval_add_gn_hess_constr_N']
 OCP_ALL = OCP_REQUIRED + OCP_OPTIONAL
-OCP_THROWING = ['eval_add_R_prod_masked', 'eval_add_S_prod_masked']
-OCP_NULL = ['get_D', 'eval_h', 'eval_h_N', 'eval_constr', 'eval_grad_constr_prod', 'eval_add_gn_hess_constr']
+# documented defaults of the optional OCP entries: raise not_implemented_error …
+OCP_THROWING = ['get_D', 'eval_h', 'eval_h_N', 'eval_constr', 'eval_grad_constr_prod', 'eval_add_gn_hess_constr',
+                'eval_add_R_prod_masked', 'eval_add_S_prod_masked']
+# … or forward to the stage function (which may itself be absent)
 OCP_VIA = {'get_D_N': 'get_D', 'eval_constr_N': 'eval_constr', 'eval_grad_constr_prod_N': 'eval_grad_constr_prod',
            'eval_add_gn_hess_constr_N': 'eval_add_gn_hess_constr'}
 OCP_COUNTERS = ['f', 'jac_f', 'grad_f_prod', 'h', 'h_N', 'l', 'l_N', 'qr', 'q_N', 'add_Q', 'add_Q_N', 'add_R_masked',
                 'add_S_masked', 'add_R_prod_masked', 'add_S_prod_masked', 'constr', 'constr_N', 'grad_constr_prod',
                 'grad_constr_prod_N', 'add_gn_hess_constr', 'add_gn_hess_constr_N']
+# bit numbering of the plug-ins' tables (harness/c20_plugins/c20_abi.h)
 DL_BITS = ['eval_proj_diff_g', 'eval_proj_multipliers', 'eval_prox_grad_step', 'eval_inactive_indices_res_lna',
            'eval_jac_g', 'get_jac_g_sparsity', 'eval_grad_gi', 'eval_hess_L_prod', 'eval_hess_L', 'get_hess_L_sparsity',
            'eval_hess_ψ_prod', 'eval_hess_ψ', 'get_hess_ψ_sparsity', 'eval_f_grad_f', 'eval_f_g',
@@ -57,10 +66,18 @@ DL_BITS = ['eval_proj_diff_g', 'eval_proj_multipliers', 'eval_prox_grad_step', '
 OCP_BITS = ['get_D', 'get_D_N', 'eval_add_Q_N', 'eval_add_R_prod_masked', 'eval_add_S_prod_masked',
             'get_R_work_size', 'get_S_work_size', 'eval_constr', 'eval_constr_N', 'eval_grad_constr_prod',
             'eval_grad_constr_prod_N', 'eval_add_gn_hess_constr', 'eval_add_gn_hess_constr_N']
+OCP_NATIVE_BITS = OCP_BITS + ['eval_h', 'eval_h_N']
+OCP_PAIRS = [('get_D', 'get_D_N'), ('eval_constr', 'eval_constr_N'), ('eval_grad_constr_prod', 'eval_grad_constr_prod_N'),
+             ('eval_add_gn_hess_constr', 'eval_add_gn_hess_constr_N')]
+ALL13 = (1 << 13) - 1
 # functions hidden behind BoxConstrProblem fall-backs in DLProblem / FunctionalProblem (not visible in the
 # underlying-call log when the plug-in / function object omits them)
 HIDDEN = ['eval_proj_diff_g', 'eval_proj_multipliers', 'eval_prox_grad_step', 'eval_inactive_indices_res_lna']
+FUNCTIONAL_BITS = {'eval_grad_gi': 1, 'eval_jac_g': 2, 'eval_hess_L_prod': 4, 'eval_hess_L': 8, 'eval_hess_ψ_prod': 16,
+                   'eval_hess_ψ': 32}
+OCP_N = 2   # horizon of the C20 OCP problems (C20_OCP_N)
 
+# keys of the C20 findings (all repaired; kept for the ledger)
 K_F1 = 'C20-F1-reset_evaluations-nulls-shared_ptr'
 K_F2 = 'C20-F2-DLControlProblem-ctor-tests-unassigned-functions'
 K_F3 = 'C20-F3-provides_eval_hess_psi_prod-requires-clause'
@@ -69,41 +86,68 @@ K_F5 = 'C20-F5-ControlProblemWithCounters-eval_h-unconditional'
 K_F6 = 'C20-F6-ocp-absent-null-vtable-entry-crashes'
 K_F7 = 'C20-F7-abi-eval_proj_multipliers-no-default'
 K_F8 = 'C20-F8-DLControlProblem-lacks-required-projections'
-K_F9 = 'C20-F9-DLControlProblem-no-provides_eval_h'   # fixed (kept for the ledger; no monitor returns it)
+K_F9 = 'C20-F9-DLControlProblem-no-provides_eval_h'
 
-# what the property demands of the loader for each plug-in variant the check builds
+# what the property demands of the loader for each plug-in variant the check builds: (decision, does the
+# registration function run?).  `regcalls`: '-' the library is never opened, 0 / 1 otherwise — documented: the
+# registration function runs iff the library opens, `<name>_version()` (when exported) reports this ABI and the symbol exists
 LOAD_EXPECT = {
-    ('nlp', 'c20_register'): 'ok warned=0', ('nlp', 'c20_noversion'): 'ok warned=1',
-    ('nlp', 'c20_badversion'): 'err:abi', ('nlp', 'c20_badabi'): 'err:abi',
-    ('nlp', 'c20_nofunctions'): 'err:no_functions', ('nlp', 'c20_nosuch'): 'err:missing_symbol',
-    ('missing', 'c20_register'): 'err:dlopen', ('empty', 'c20_register'): 'err:invalid_argument',
-    ('fail', 'c20_throws'): 'err:plugin_exception', ('fail', 'c20_defaultinit'): 'ok warned=0',
-    ('ocp', 'c20_ocp_register'): 'ok warned=0', ('ocp', 'c20_ocp_nofunctions'): 'err:no_functions',
-    ('ocp', 'c20_ocp_badabi'): 'err:abi', ('ocp', 'c20_ocp_nosuch'): 'err:missing_symbol',
-    ('missing', 'c20_ocp_register'): 'err:dlopen',
+    ('nlp', 'c20_register'): ('ok warned=0', '1'), ('nlp', 'c20_noversion'): ('ok warned=1', '1'),
+    ('nlp', 'c20_badversion'): ('err:abi', '0'), ('nlp', 'c20_badabi'): ('err:abi', '1'),
+    ('nlp', 'c20_nofunctions'): ('err:no_functions', '1'), ('nlp', 'c20_nosuch'): ('err:missing_symbol', '0'),
+    ('missing', 'c20_register'): ('err:dlopen', '-'), ('empty', 'c20_register'): ('err:invalid_argument', '-'),
+    ('fail', 'c20_throws'): ('err:plugin_exception', '1'), ('fail', 'c20_defaultinit'): ('ok warned=0', '1'),
+    ('ocp', 'c20_ocp_register'): ('ok warned=0', '1'), ('ocp', 'c20_ocp_noversion'): ('ok warned=1', '1'),
+    ('ocp', 'c20_ocp_badversion'): ('err:abi', '0'), ('ocp', 'c20_ocp_badabi'): ('err:abi', '1'),
+    ('ocp', 'c20_ocp_nofunctions'): ('err:no_functions', '1'), ('ocp', 'c20_ocp_nosuch'): ('err:missing_symbol', '0'),
+    ('missing', 'c20_ocp_register'): ('err:dlopen', '-'), ('empty', 'c20_ocp_register'): ('err:invalid_argument', '-'),
+    ('fail', 'c20_ocp_throws'): ('err:plugin_exception', '1'),
 }
+
+EXEMPT = collections.Counter()   # named exemptions: a comparison the monitors did not make, and why
+COVER = collections.Counter()    # classes of the required-coverage list that were exercised
 
 
 # ------------------------------------------------------------------ plug-ins
 
+PLUG_FLAGS = ['-O1', '-ffp-contract=off', '-shared', '-fPIC', '-fvisibility=hidden', '-w']
+
+
+def plugin_jobs():
+    inc = ['-I' + C.REPO + '/src/interop/dl-api/include', '-I' + PLUG_SRC]
+    return inc, [('c20_nlp.so', ['gcc', '-std=c11'], 'c20_nlp.c', ['-lm']),
+                 ('c20_ocp.so', ['gcc', '-std=c11'], 'c20_ocp.c', ['-lm']),
+                 ('c20_fail.so', ['g++', '-std=c++20'], 'c20_fail.cpp', [])]
+
+
+def plugin_key():
+    """cache key = the PREPROCESSED text of every plug-in source (so every header it includes, transitively —
+    dl-problem.h and whatever that includes — is part of it) + the compile command"""
+    inc, jobs = plugin_jobs()
+    h = hashlib.sha256()
+    for out, cc, src, libs in jobs:
+        cmd = cc + PLUG_FLAGS + inc
+        r = C.sh(cmd + ['-E', '-P', os.path.join(PLUG_SRC, src)])
+        if r.returncode != 0:
+            return None, f'plug-in {src} does not preprocess against the working tree:\n{r.stdout[-1500:]}'
+        h.update((' '.join(cmd + libs) + '\0').encode())
+        h.update(r.stdout.encode())
+    return h.hexdigest()[:16], ''
+
+
 def build_plugins():
     """gcc/g++ -shared -fPIC from harness/c20_plugins against the working tree's dl-problem.h."""
-    inc = ['-I' + C.REPO + '/src/interop/dl-api/include', '-I' + PLUG_SRC]
-    jobs = [('c20_nlp.so', ['gcc', '-std=c11'], 'c20_nlp.c', ['-lm']),
-            ('c20_ocp.so', ['gcc', '-std=c11'], 'c20_ocp.c', ['-lm']),
-            ('c20_fail.so', ['g++', '-std=c++20'], 'c20_fail.cpp', [])]
-    h = hashlib.sha256()
-    for fn in sorted(os.listdir(PLUG_SRC)):
-        h.update(open(os.path.join(PLUG_SRC, fn), 'rb').read())
-    h.update(open(C.REPO + '/src/interop/dl-api/include/alpaqa/dl/dl-problem.h', 'rb').read())
-    d = os.path.join(C.CACHE, 'c20_plugins_' + h.hexdigest()[:16])
+    inc, jobs = plugin_jobs()
+    key, err = plugin_key()
+    if key is None:
+        return None, err
+    d = os.path.join(C.CACHE, 'c20_plugins_' + key)
     if all(os.path.exists(os.path.join(d, j[0])) for j in jobs):
         return d, ''
     os.makedirs(d, exist_ok=True)
     for out, cc, src, libs in jobs:
         tmp = os.path.join(d, out + f'.{os.getpid()}.tmp')
-        r = C.sh(cc + ['-O1', '-ffp-contract=off', '-shared', '-fPIC', '-fvisibility=hidden', '-w'] + inc +
-                 [os.path.join(PLUG_SRC, src), '-o', tmp] + libs)
+        r = C.sh(cc + PLUG_FLAGS + inc + [os.path.join(PLUG_SRC, src), '-o', tmp] + libs)
         if r.returncode != 0:
             return None, f'plug-in {src} does not compile against the working tree:\n{r.stdout[-1500:]}'
         os.replace(tmp, os.path.join(d, out))
@@ -178,37 +222,69 @@ def vec(rng, n):
     return ' '.join([str(n)] + [f2h(rv(rng)) for _ in range(n)])
 
 
+def stagevec(rng, nc):
+    """one value per constraint of every stage (N·nc + nc_N): inside, on and on either side of the ±62 bounds of
+    the C20 OCP plug-ins, specials included"""
+    vals = []
+    for _ in range((OCP_N + 1) * nc):
+        k = rng.random()
+        vals.append(rv(rng) if k < 0.3 else rng.choice([-1, 1]) * rng.choice([0.0, 30.5, 62.0, 62.5, 63.0, 64.0, 100.25, 1e9])
+                    if k < 0.8 else rng.gauss(0, 60))
+    return ' '.join([str(len(vals))] + [f2h(v) for v in vals])
+
+
 def nlp_args(rng, n, m):
     return f'{f2h(rv(rng))} {rng.randrange(max(m, 1))} {vec(rng, n)} {vec(rng, m)} {vec(rng, m)} {vec(rng, n)}'
 
 
 def ocp_args(rng, nh, nc):
+    # a i x u h p M zf      (zf: the vector over all stages for the two projections)
     return (f'{f2h(rv(rng))} {rng.randrange(3)} {vec(rng, 2)} {vec(rng, 2)} {vec(rng, nh)} {vec(rng, 2)} '
-            f'{vec(rng, nc)}')
+            f'{vec(rng, nc)} {stagevec(rng, nc)}')
 
 
-def session_body(rng, fns, argf, length, p_reset):
-    """create + a random walk over call / copy / decouple / reset / cnt / prov"""
-    ops = ['create', 'prov 0']
+def box_args(rng, n):
+    lb = [rng.choice([-3.5, -1.0, 0.0, float('-inf'), rng.randint(-8, 0) / 2]) for _ in range(n)]
+    ub = [l + rng.choice([0.0, 0.5, 2.0, float('inf'), 7.25]) if l != float('-inf') else rng.choice([1.0, float('inf')])
+          for l in lb]
+    return ' '.join([str(n)] + [f2h(v) for v in lb]) + ' ' + ' '.join([str(n)] + [f2h(v) for v in ub])
+
+
+def mut_op(rng, kind, n, m, prefix='mutate'):
+    """one change of problem data that the kind of underlying problem has"""
+    whats = {'native': ['C', 'D', 'const'], 'functional': ['C', 'D', 'const'], 'ocp': ['D', 'const']}[kind]
+    what = rng.choice(whats)
+    if what == 'const':
+        return f'{prefix} const {f2h(rng.choice([rv(rng), rng.randint(-40, 40) / 8]))}'
+    return f'{prefix} {what} {box_args(rng, n if what == "C" else m)}'
+
+
+def session_body(rng, fns, argf, length, p_reset, mut=None, p_ref=0.35):
+    """wrappers (by value / by reference) + a random walk over call / copy / decouple / reset / cnt / prov and, when
+    `mut` is given, changes of the underlying problem's data and of a by-value wrapper's own copy"""
+    first = 'createref' if rng.random() < p_ref else 'create'
+    ops = [first, 'prov 0']
     nw = 1
     resets = rng.random() < p_reset
     for _ in range(length):
         k = rng.random()
         w = rng.randrange(nw)
-        if k < 0.62:
+        if k < 0.56:
             ops.append(f'call {w} {rng.choice(fns)} {argf()}')
-        elif k < 0.70:
+        elif k < 0.64:
             ops.append(f'copy {w}'); nw += 1
-        elif k < 0.76:
+        elif k < 0.70:
             ops.append(f'decouple {w}')
-        elif k < 0.80 and resets:
+        elif k < 0.74 and resets:
             ops.append(f'reset {w}')
-        elif k < 0.90:
+        elif k < 0.82:
             ops.append(f'cnt {w}')
-        elif k < 0.95:
+        elif k < 0.86:
             ops.append(f'prov {w}')
-        elif k < 0.97 and nw < 12:
-            ops.append('create'); nw += 1
+        elif k < 0.90 and nw < 12:
+            ops.append('createref' if rng.random() < p_ref else 'create'); nw += 1
+        elif k < 0.97 and mut is not None:
+            ops.append(mut(f'mutatew {w}') if rng.random() < 0.3 else mut('mutate'))
         else:
             ops.append(f'cnt {rng.randrange(nw)}')
     for w in range(nw):
@@ -216,23 +292,65 @@ def session_body(rng, fns, argf, length, p_reset):
     return ops
 
 
+NLP_OBSERVE = ['eval_f', 'get_box_C', 'get_box_D', 'eval_proj_diff_g', 'eval_prox_grad_step', 'eval_ψ', 'eval_grad_f',
+               'eval_proj_multipliers', 'eval_hess_ψ_prod']
+OCP_OBSERVE = ['eval_l_N', 'get_D', 'get_D_N', 'eval_f', 'eval_constr']
+
+
+def mutation_script(rng, kind, n, m, argf, observe):
+    """the scenario of the property's `transparent` clause under change: a by-value and a by-reference wrapper of the
+    same underlying object side by side; the object is changed between evaluations; copies; a change through the
+    by-value wrapper's own member"""
+    ops = ['create', 'createref']
+    def look(ws):
+        for w in ws:
+            for f in observe:
+                ops.append(f'call {w} {f} {argf()}')
+    look([0, 1])
+    whats = ['C', 'D', 'const'] if kind != 'ocp' else ['D', 'const']
+    for what in whats:
+        ops.append(f'mutate const {f2h(rng.randint(-40, 40) / 8)}' if what == 'const' else
+                   f'mutate {what} {box_args(rng, n if what == "C" else m)}')
+        look([0, 1])
+    ops += ['copy 0', 'copy 1']          # wrappers 2 (value, snapshot of 0's copy) and 3 (reference)
+    ops.append(mut_op(rng, kind, n, m))
+    look([0, 1, 2, 3])
+    ops.append(mut_op(rng, kind, n, m, 'mutatew 0'))   # through the by-value wrapper's own `problem` member
+    ops.append(mut_op(rng, kind, n, m, 'mutatew 1'))   # by-reference: const reference, must be refused
+    look([0, 1, 2, 3])
+    ops += ['create', 'createref']       # fresh wrappers see the current data
+    ops.append(mut_op(rng, kind, n, m))
+    look([4, 5, 0])
+    ops += [f'cnt {w}' for w in range(6)]
+    return ops
+
+
 def gen_ops(rng, n_sessions, lists, thorough=False):
     natives, ocps = lists
     ops = []
 
-    def native(idx=None, pv=None, m=None, length=None):
+    def native(idx=None, pv=None, m=None, length=None, script=False):
         i, has, prov = natives[rng.randrange(len(natives))] if idx is None else natives[idx]
         pv_ = rng.getrandbits(21) if pv is None else pv
         if rng.random() < 0.3 and pv is None:
             pv_ = rng.choice([0, (1 << 21) - 1])
         n = rng.choice([1, 2, 3]); m_ = rng.choice([0, 0, 2, 3]) if m is None else m
         ops.append(f'new native {i} {has} {prov} {pv_} {n} {m_}')
-        ops.extend(session_body(rng, NLP_ALL, lambda: nlp_args(rng, n, m_), length or rng.choice([4, 10, 25]), 0.3))
+        if script:
+            ops.extend(mutation_script(rng, 'native', n, m_, lambda: nlp_args(rng, n, m_), NLP_OBSERVE))
+        else:
+            ops.extend(session_body(rng, NLP_ALL, lambda: nlp_args(rng, n, m_), length or rng.choice([4, 10, 25]), 0.3,
+                                    lambda pre: mut_op(rng, 'native', n, m_, pre)))
 
-    def functional():
-        fm = rng.getrandbits(6); n = rng.choice([1, 2, 3]); m = rng.choice([0, 2, 3])
+    def functional(fm=None, script=False):
+        fm = rng.getrandbits(6) if fm is None else fm
+        n = rng.choice([1, 2, 3]); m = rng.choice([0, 2, 3])
         ops.append(f'new functional {fm} {n} {m}')
-        ops.extend(session_body(rng, NLP_ALL, lambda: nlp_args(rng, n, m), rng.choice([4, 10, 20]), 0.2))
+        if script:
+            ops.extend(mutation_script(rng, 'functional', n, m, lambda: nlp_args(rng, n, m), NLP_OBSERVE))
+        else:
+            ops.extend(session_body(rng, NLP_ALL, lambda: nlp_args(rng, n, m), rng.choice([4, 10, 20]), 0.2,
+                                    lambda pre: mut_op(rng, 'functional', n, m, pre)))
 
     def dl(mask=None, m=None, length=None):
         k = rng.random()
@@ -244,35 +362,54 @@ def gen_ops(rng, n_sessions, lists, thorough=False):
         ops.extend(session_body(rng, NLP_ALL, lambda: nlp_args(rng, n, m_), length or rng.choice([4, 10, 20]), 0.2))
 
     def dl_fail():
-        file, reg = rng.choice([k for k in LOAD_EXPECT if k[0] != 'ocp' and not k[1].startswith('c20_ocp')])
+        file, reg = rng.choice([k for k in LOAD_EXPECT if not k[1].startswith('c20_ocp')])
         n = rng.choice([1, 2]); m = rng.choice([0, 2])
         ops.append(f'new dl {file} {reg} {rng.getrandbits(20)} {n} {m} {rng.getrandbits(3)}')
         fns = NLP_ALL if reg != 'c20_defaultinit' else ['eval_f', 'eval_grad_f', 'eval_g', 'eval_proj_diff_g',
                                                           'eval_proj_multipliers', 'eval_ψ', 'eval_prox_grad_step']
         ops.extend(session_body(rng, fns, lambda: nlp_args(rng, n, m), 5, 0.0))
 
-    def ocp():
-        i, has, prov = ocps[rng.randrange(len(ocps))]
-        nh = rng.choice([0, 1, 2]); nc = rng.choice([0, 0, 1, 2])
-        ops.append(f'new ocp {i} {has} {prov} {rng.getrandbits(15)} {nh} {nc}')
-        ops.extend(session_body(rng, OCP_ALL, lambda: ocp_args(rng, nh, nc), rng.choice([4, 10, 25]), 0.25))
+    def ocp(idx=None, script=False, nodims=False):
+        i, has, prov = ocps[rng.randrange(len(ocps))] if idx is None else ocps[idx]
+        nh = rng.choice([0, 1, 2]); nc = rng.choice([1, 2]) if script else rng.choice([0, 0, 1, 2])
+        if nodims:
+            nh = nc = 0       # no dimension makes an optional function mandatory: every instantiation constructs
+        pv = (1 << 15) - 1 if script else rng.getrandbits(15)
+        ops.append(f'new ocp {i} {has} {prov} {pv} {nh} {nc}')
+        if script:
+            ops.extend(mutation_script(rng, 'ocp', 2, nc, lambda: ocp_args(rng, nh, nc), OCP_OBSERVE))
+        else:
+            ops.extend(session_body(rng, OCP_ALL, lambda: ocp_args(rng, nh, nc), rng.choice([4, 10, 25]), 0.25,
+                                    lambda pre: mut_op(rng, 'ocp', 2, nc, pre)))
 
-    def dlocp():
-        file, reg = rng.choice([k for k in LOAD_EXPECT if k[1].startswith('c20_ocp')])
-        nh = rng.choice([0, 1, 2]); nc = rng.choice([0, 1, 2])
-        mask = rng.choice([(1 << 13) - 1, rng.getrandbits(13) | 0x281 if nc else rng.getrandbits(13)])
+    def dlocp(mask=None, nc=None, flags=None, length=None, reg=None, fns=None):
+        file, reg_ = rng.choice([k for k in LOAD_EXPECT if k[1].startswith('c20_ocp')]) if reg is None else ('ocp', reg)
+        nh = rng.choice([0, 1, 2])
+        nc_ = rng.choice([0, 1, 2]) if nc is None else nc
+        mask_ = mask if mask is not None else rng.choice(
+            [ALL13, rng.getrandbits(13) | 0x281 if nc_ else rng.getrandbits(13)])
         # flags: which of the two optional output-mapping members the plug-in leaves null
-        flags = rng.choice([0, 0, 0, 1, 2, 3])
-        ops.append(f'new dlocp {file} {reg} {mask} {nh} {nc} {flags}')
-        ops.extend(session_body(rng, OCP_ALL, lambda: ocp_args(rng, nh, nc), rng.choice([4, 12]), 0.2))
+        fl = rng.choice([0, 0, 0, 1, 2, 3]) if flags is None else flags
+        if fl:
+            nh = rng.choice([0, 0, nh])
+        ops.append(f'new dlocp {file} {reg_} {mask_} {nh} {nc_} {fl}')
+        if fns is not None:
+            ops.extend(['create', 'prov 0'] + [f'call 0 {f} {ocp_args(rng, nh, nc_)}' for f in fns])
+        else:
+            ops.extend(session_body(rng, OCP_ALL, lambda: ocp_args(rng, nh, nc_), length or rng.choice([4, 12]), 0.2))
 
-    # deterministic part: every native instantiation, every load variant, the reset scenario, single-bit plug-ins
+    # ---- deterministic part (what the required-coverage list demands in every run)
+    # every native instantiation
     for idx in range(len(natives)):
         native(idx=idx, length=6)
+    for idx in range(len(ocps)):
+        ocp(idx=idx)
+        ocp(idx=idx, nodims=True)
+    # every load variant (NLP and OCP loaders)
     for key in LOAD_EXPECT:
         file, reg = key
         kind = 'dlocp' if reg.startswith('c20_ocp') else 'dl'
-        ops.append(f'new {kind} {file} {reg} {(1 << 13) - 1 if kind == "dlocp" else 5} 2 {1 if kind == "dlocp" else 2} 0')
+        ops.append(f'new {kind} {file} {reg} {ALL13 if kind == "dlocp" else 5} 2 {1 if kind == "dlocp" else 2} 0')
         ops.append('create'); ops.append('prov 0')
         if reg == 'c20_defaultinit':
             ops += [f'call 0 {f} {nlp_args(rng, 2, 2)}' for f in ('eval_f', 'eval_proj_diff_g', 'eval_proj_multipliers')]
@@ -281,24 +418,46 @@ def gen_ops(rng, n_sessions, lists, thorough=False):
         f'call 0 {f} {ocp_args(rng, 1, 0)}' for f in ('eval_f', 'eval_constr', 'get_D_N', 'eval_add_R_prod_masked', 'eval_h')]
     # OCP plug-ins that omit eval_h / eval_h_N (optional in ControlProblemVTable): without outputs (nh = 0: reported
     # as absent, calling them raises not_implemented_error) and with outputs (nh = 1: constructor error)
-    for nh, fl in ((0, 1), (0, 2), (0, 3), (1, 3), (1, 1)):
-        ops += [f'new dlocp ocp c20_ocp_register {(1 << 13) - 1} {nh} 0 {fl}', 'create', 'prov 0'] + [
+    for nh, fl in ((0, 1), (0, 2), (0, 3), (1, 3), (1, 1), (1, 2)):
+        ops += [f'new dlocp ocp c20_ocp_register {ALL13} {nh} 0 {fl}', 'create', 'prov 0'] + [
             f'call 0 {f} {ocp_args(rng, nh, 0)}' for f in ('eval_h', 'eval_h_N', 'eval_f', 'eval_l_N')] + ['cnt 0']
-    # the loader's own projections (no C-ABI member): every combination of get_D / get_D_N present or not, with
+    # the OCP loader's own projections (no C-ABI member): every combination of get_D / get_D_N present or not, with
     # nc = 0 and (where the vtable constructor accepts it) nc > 0
-    for nc, mk in ((0, 0), (0, 1), (0, 2), (0, 3), (1, (1 << 13) - 1), (1, ((1 << 13) - 1) & ~2), (2, (1 << 13) - 1)):
+    for nc, mk in ((0, 0), (0, 1), (0, 2), (0, 3), (1, ALL13), (1, ALL13 & ~2), (2, ALL13), (2, ALL13 & ~2), (2, 0x281)):
         ops += [f'new dlocp ocp c20_ocp_register {mk} 1 {nc} 0', 'create'] + [
-            f'call 0 {f} {ocp_args(rng, 1, nc)}' for f in ('eval_proj_diff_g', 'eval_proj_multipliers',
-                                                            'eval_proj_diff_g', 'eval_proj_multipliers')]
+            f'call 0 {f} {ocp_args(rng, 1, nc)}' for f in ('eval_proj_diff_g', 'eval_proj_multipliers') * 3]
+    # counters: the reset / share / decouple scenario
     i, has, prov = natives[1]
     a = nlp_args(rng, 2, 2)
     ops += [f'new native {i} {has} {prov} 0 2 2', 'create', 'copy 0', f'call 0 eval_f {a}', f'call 1 eval_f {a}',
             'cnt 0', 'reset 0', 'cnt 0', 'cnt 1', f'call 0 eval_f {a}', f'call 1 eval_grad_f {a}', 'cnt 0', 'cnt 1',
             'decouple 0', 'copy 1', f'call 2 eval_g {a}', 'cnt 1', 'cnt 2']
+    # transparency when the underlying problem changes: by-value and by-reference wrappers side by side
+    for idx in (1, 2):
+        native(idx=idx, pv=(1 << 21) - 1, m=2, script=True)
+    native(idx=1, pv=0, m=0, script=True)
+    functional(fm=63, script=True); functional(fm=0, script=True)
+    for idx in (1, 2):
+        ocp(idx=idx, script=True)
+    # NLP plug-ins: every single table entry present / absent
     for b in range(20):
         dl(mask=1 << b, m=rng.choice([0, 2]), length=6)
+        dl(mask=((1 << 20) - 1) ^ (1 << b), m=rng.choice([0, 2]), length=6)
+    # OCP plug-ins (nc = 0: every subset loads): every single presence, every single omission, the four coupled pairs
+    # (X_N falls back on X) in all four combinations with the rest present / absent; all 15 optional functions called
+    strat = [1 << b for b in range(13)] + [ALL13 ^ (1 << b) for b in range(13)]
+    for a_, b_ in OCP_PAIRS:
+        ba, bb = 1 << OCP_BITS.index(a_), 1 << OCP_BITS.index(b_)
+        for combo in (0, ba, bb, ba | bb):
+            strat += [combo, (ALL13 & ~(ba | bb)) | combo]
+    for mk in strat:
+        dlocp(mask=mk, nc=0, flags=0, reg='c20_ocp_register', fns=OCP_OPTIONAL)
+    # native problems: every single optional function reported as not provided / as the only one provided at run time
+    for b in range(21):
+        native(idx=2, pv=((1 << 21) - 1) ^ (1 << b), length=4)
+        native(idx=2, pv=1 << b, length=4)
     if thorough:
-        # all subsets of the ten entries whose presence interacts with other flags / defaults, m ∈ {0, 2}
+        # all subsets of the ten NLP entries whose presence interacts with other flags / defaults, m ∈ {0, 2}
         inter = [0, 2, 3, 7, 8, 9, 10, 11, 12, 14]
         for sub in range(1 << len(inter)):
             mk = sum(1 << inter[j] for j in range(len(inter)) if (sub >> j) & 1) | (rng.getrandbits(20) & ~sum(1 << b for b in inter))
@@ -311,13 +470,21 @@ def gen_ops(rng, n_sessions, lists, thorough=False):
             for m in (0, 2):
                 ops.append(f'new functional {fm} 2 {m}')
                 ops += ['create', 'prov 0'] + [f'call 0 {f} {nlp_args(rng, 2, m)}' for f in NLP_ALL]
+        # all 2^13 subsets of the optional OCP table entries
+        for mk in range(1 << 13):
+            fns = [OCP_OPTIONAL[(mk + j * 4) % 15] for j in range(4)] + ['eval_proj_diff_g']
+            dlocp(mask=mk, nc=0, flags=(mk >> 3) & 3 if mk % 5 == 0 else 0, reg='c20_ocp_register', fns=fns)
+        for mk in range(0, 1 << 13, 7):
+            if (mk & 0x281) == 0x281:
+                dlocp(mask=mk, nc=rng.choice([1, 2]), flags=0, reg='c20_ocp_register',
+                      fns=['get_D_N', 'eval_constr_N', 'eval_proj_diff_g', 'eval_proj_multipliers'])
     for _ in range(n_sessions):
         k = rng.random()
         if k < 0.36: native()
         elif k < 0.50: functional()
-        elif k < 0.76: dl()
-        elif k < 0.82: dl_fail()
-        elif k < 0.96: ocp()
+        elif k < 0.70: dl()
+        elif k < 0.76: dl_fail()
+        elif k < 0.92: ocp()
         else: dlocp()
     # a few long sequences
     for _ in range(3 if not thorough else 12):
@@ -325,7 +492,141 @@ def gen_ops(rng, n_sessions, lists, thorough=False):
     return ops
 
 
-# ------------------------------------------------------------------ monitors
+# ------------------------------------------------------------------ the property, from the op lines
+
+def bit(x, i):
+    return (x >> i) & 1
+
+
+def expected_flags(s):
+    """capability flags the property prescribes, from what the op line says the underlying problem HAS — never from
+    what the code reports.  NLP: '<21 bits>/<2 supports bits>', OCP: '<15 bits>'."""
+    k = s['kind']
+    if k in ('ocp', 'dlocp'):
+        if k == 'ocp':
+            # vtable rule: the member exists and (no provides_ member or it returns true)
+            P = lambda f: bool(bit(s['has'], OCP_NATIVE_BITS.index(f))) and (
+                not bit(s['prov_mask'], OCP_NATIVE_BITS.index(f)) or bool(bit(s['pv'], OCP_NATIVE_BITS.index(f))))
+        else:
+            # raw table: the pointer is non-null
+            om = omitted_h(s)
+            P = lambda f: (f not in om) if f in ('eval_h', 'eval_h_N') else bool(bit(s['mask'], OCP_BITS.index(f)))
+        return ''.join('1' if P(f) else '0' for f in OCP_OPTIONAL)
+    if k == 'native':
+        P = lambda f: bool(bit(s['has'], NLP_OPTIONAL.index(f))) and (
+            not bit(s['prov_mask'], NLP_OPTIONAL.index(f)) or bool(bit(s['pv'], NLP_OPTIONAL.index(f))))
+    elif k == 'functional':
+        # FunctionalProblem: a function object that is set; everything BoxConstrProblem declares (ℓ1 term empty)
+        inherited = {'eval_inactive_indices_res_lna', 'get_box_C', 'get_box_D', 'check', 'get_name'}
+        P = lambda f: f in inherited or bool(s['fm'] & FUNCTIONAL_BITS.get(f, 0))
+    else:
+        # C-ABI loader, from the RAW table (which pointers are null) and the documented rules (dl-problem.h):
+        #  * a table entry that is set is provided; one that is null is not;
+        #  * the box C describes the proximal step only "if [eval_prox_grad_step is] not set, the default
+        #    implementation from BoxConstrProblem is used", and BoxConstrProblem supports get_box_C "only if the
+        #    ℓ₁-regularization term is zero";
+        #  * likewise D describes the constraint set only while eval_proj_diff_g is the default;
+        #  * eval_inactive_indices_res_lna: the plug-in's own, or the BoxConstrProblem default, which is consistent
+        #    with the default proximal step only;
+        #  * check / get_name are the loader's own.
+        if s['reg'] == 'c20_defaultinit':
+            T = lambda f: False                  # default-initialised table: only the four required cost functions
+            l1 = False
+        else:
+            T = lambda f: bool(bit(s['mask'], DL_BITS.index(f)))
+            l1 = bool(s['flags'] & 8)
+        def P(f):
+            if f == 'get_box_C':
+                return not T('eval_prox_grad_step') and not l1
+            if f == 'get_box_D':
+                return not T('eval_proj_diff_g')
+            if f == 'eval_inactive_indices_res_lna':
+                return T(f) or not T('eval_prox_grad_step')
+            if f in ('check', 'get_name'):
+                return True
+            return T(f)
+    main = ''.join('1' if P(f) else '0' for f in NLP_OPTIONAL)
+    m0 = s['m'] == 0
+    sup = ''.join('1' if (P(a) or (m0 and P(b))) else '0'
+                  for a, b in (('eval_hess_ψ_prod', 'eval_hess_L_prod'), ('eval_hess_ψ', 'eval_hess_L')))
+    return main + '/' + sup
+
+
+def fmtv(vals):
+    return ' '.join([str(len(vals))] + [f2h(v) for v in vals])
+
+
+def initial_data(s):
+    """the data of a freshly created underlying problem (harness: NativeBase::init, new_functional, OcpBase)"""
+    inf = float('inf')
+    if s['kind'] in ('native', 'functional'):
+        n, m = s['n'], s['m']
+        C_ = ([-2.0 - i for i in range(n)], [3.0 + i for i in range(n)])
+        D_ = ([-1.5 - j for j in range(m)], [2.5 + 2 * j for j in range(m)])
+        if m > 1:
+            D_[1][m - 1] = inf
+        return {'C': C_, 'D': D_, 'const': None, 'epoch': 0}
+    if s['kind'] == 'ocp':
+        return {'D': None, 'const': None, 'epoch': 0}
+    return {'epoch': 0}
+
+
+def plugin_box(n, tag):
+    """c20o_box of harness/c20_plugins/c20_math.h"""
+    return [-tag - i for i in range(n)], [float('inf') if i % 2 else tag + 0.5 * i for i in range(n)]
+
+
+def expected_value(s, data, fn, flags):
+    """exact output of `fn` on a problem whose data are `data`, for the functions whose result is a closed form of
+    the mutable data; None for the others"""
+    if s['kind'] in ('native', 'functional'):
+        if fn == 'eval_f' and data['const'] is not None:
+            return f2h(data['const'])
+        if fn == 'get_box_C':
+            return fmtv(data['C'][0]) + ' ' + fmtv(data['C'][1])
+        if fn == 'get_box_D':
+            return fmtv(data['D'][0]) + ' ' + fmtv(data['D'][1])
+        return None
+    if s['kind'] == 'ocp':
+        nc = s['m']
+        provided = lambda f: flags[OCP_OPTIONAL.index(f)] == '1'
+        if fn == 'eval_l_N' and data['const'] is not None:
+            return f2h(data['const'])
+        if fn == 'get_D' or (fn == 'get_D_N' and not provided('get_D_N')):
+            b = data['D'] if data['D'] is not None else plugin_box(nc, 62.0)
+            return fmtv(b[0]) + ' ' + fmtv(b[1])
+        if fn == 'get_D_N':
+            b = plugin_box(nc, 63.0)
+            return fmtv(b[0]) + ' ' + fmtv(b[1])
+    return None
+
+
+def cmax(a, b):      # std::max(a, b) = (a < b) ? b : a
+    return b if a < b else a
+
+
+def cmin(a, b):      # std::min(a, b) = (b < a) ? b : a
+    return b if b < a else a
+
+
+def expected_projection(s, fn, M, z):
+    """DLControlProblem's own projections, from the plug-in's parameters and the documented rule: the stage box D
+    (what get_D answers; unbounded when the table has no get_D) for each of the N stages, then the terminal box D_N
+    (get_D_N; without it the stage box when nc_N = nc; else unbounded).  eval_proj_diff_g: z − Π(z).
+    eval_proj_multipliers: clip to [−M, M], the side of an infinite bound to 0."""
+    nc = s['m']
+    inf = float('inf')
+    unb = ([-inf] * nc, [inf] * nc)
+    D = plugin_box(nc, 62.0) if bit(s['mask'], 0) else unb
+    DN = plugin_box(nc, 63.0) if bit(s['mask'], 1) else (D if bit(s['mask'], 0) else unb)
+    lb = D[0] * OCP_N + DN[0]
+    ub = D[1] * OCP_N + DN[1]
+    if len(z) != len(lb):
+        return None
+    if fn == 'eval_proj_diff_g':
+        return fmtv([v - cmin(cmax(v, l), u) for v, l, u in zip(z, lb, ub)])
+    return fmtv([cmin(cmax(v, 0.0 if l == -inf else -M), 0.0 if u == inf else M) for v, l, u in zip(z, lb, ub)])
+
 
 class Mon:
     """The property, restated on the real code's output lines; independent of the Lean model."""
@@ -335,32 +636,37 @@ class Mon:
 
     def new(self, t):
         kind = t[0]
-        s = {'kind': kind, 'alive': False, 'ocp': kind in ('ocp', 'dlocp'), 'w': [], 'ngroups': 0, 'prov': {},
-             'provD': None}
+        s = {'kind': kind, 'alive': False, 'ocp': kind in ('ocp', 'dlocp'), 'w': [], 'ngroups': 0, 'ectr': 0}
         if kind == 'native':
-            s.update(has=int(t[2]), prov_mask=int(t[3]), pv=int(t[4]), n=int(t[5]), m=int(t[6]))
+            s.update(idx=int(t[1]), has=int(t[2]), prov_mask=int(t[3]), pv=int(t[4]), n=int(t[5]), m=int(t[6]))
         elif kind == 'functional':
             s.update(fm=int(t[1]), n=int(t[2]), m=int(t[3]))
         elif kind in ('dl', 'dlocp'):
             s.update(file=t[1], reg=t[2], mask=int(t[3]), n=int(t[4]), m=int(t[5]), flags=int(t[6]))
         elif kind == 'ocp':
-            s.update(has=int(t[2]), prov_mask=int(t[3]), pv=int(t[4]), n=int(t[5]), m=int(t[6]))
+            s.update(idx=int(t[1]), has=int(t[2]), prov_mask=int(t[3]), pv=int(t[4]), n=int(t[5]), m=int(t[6]))
         s['counters'] = OCP_COUNTERS if s['ocp'] else NLP_COUNTERS
+        s['data'] = initial_data(s)          # the underlying object's current data
+        s['flags_exp'] = expected_flags(s)
+        s['mutated'] = set()
         self.s = s
         return s
 
-    # --- wrappers: the property's semantics (spec) and the known-deviating one (asis, finding F1)
-    def add_wrapper(self, src=None):
+    def add_wrapper(self, holds=None, src=None):
+        """holds 'ref': the wrapper aliases the underlying object (sees its current data); 'val': it owns a snapshot"""
         s = self.s
         if src is None:
             z = {c: 0 for c in s['counters']}
-            s['w'].append({'g': s['ngroups'], 'spec': dict(z), 'ga': s['ngroups'], 'asis': dict(z), 'dead': False,
-                           'reset_seen': False})
+            s['w'].append({'g': s['ngroups'], 'spec': dict(z), 'holds': holds,
+                           'snap': copy.deepcopy(s['data']) if holds == 'val' else None})
             s['ngroups'] += 1
         else:
             o = s['w'][src]
-            s['w'].append({'g': o['g'], 'spec': dict(o['spec']), 'ga': o['ga'], 'asis': dict(o['asis']),
-                           'dead': o['dead'], 'reset_seen': o['reset_seen']})
+            s['w'].append({'g': o['g'], 'spec': dict(o['spec']), 'holds': o['holds'], 'snap': copy.deepcopy(o['snap'])})
+
+    def data_of(self, w):
+        me = self.s['w'][w]
+        return self.s['data'] if me['holds'] == 'ref' else me['snap']
 
     def count(self, w, names):
         s = self.s
@@ -369,9 +675,6 @@ class Mon:
             if o['g'] == me['g']:
                 for c in names:
                     o['spec'][c] += 1
-            if not me['dead'] and not o['dead'] and o['ga'] == me['ga']:
-                for c in names:
-                    o['asis'][c] += 1
 
 
 def omitted_h(s):
@@ -382,27 +685,54 @@ def omitted_h(s):
 
 
 def parse_call(out):
-    """'<st> log=<l> cnt=<c> ## W <vals> | D <st> <log> <vals> [| R <st> <log> <vals>]'"""
+    """'<st> log=<l> cnt=<c> ep=<e>[ val=<v…>] ## W <vals> | D <st> <log> <vals> [| U … | R …]'"""
     head, _, tail = out.partition(' ## ')
-    hm = re.match(r'(\S+) log=(\S+) cnt=(\S+)$', head)
+    hm = re.match(r'(\S+) log=(\S+) cnt=(\S+) ep=(\S+)(?: val=(.*))?$', head)
     if not hm:
         return None
     parts = [p.strip() for p in tail.split(' | ')]
     W = {'st': hm.group(1), 'log': hm.group(2), 'vals': parts[0][2:] if parts and parts[0].startswith('W ') else None}
-    res = {'W': W, 'cnt': hm.group(3)}
+    res = {'W': W, 'cnt': hm.group(3), 'ep': hm.group(4), 'val': hm.group(5)}
     for p in parts[1:]:
         tag, st, log, *vals = p.split(' ', 3)
         res[tag] = {'st': st, 'log': log, 'vals': vals[0] if vals else ''}
     return res
 
 
-def expected_hidden(s, fn, provD):
+def parse_args(t, ocp):
+    """tokens after `call w fn`: a i then vectors; returns (a, [vectors])"""
+    a = h2f(t[0])
+    pos = 2
+    vecs = []
+    for _ in range(6 if ocp else 4):
+        n = int(t[pos])
+        vecs.append([h2f(x) for x in t[pos + 1:pos + 1 + n]])
+        pos += 1 + n
+    return a, vecs
+
+
+def parse_mut(t):
+    """`C|D <lb> <ub>` or `const <v>`"""
+    what = t[0]
+    if what == 'const':
+        return what, h2f(t[1])
+    n = int(t[1])
+    lb = [h2f(x) for x in t[2:2 + n]]
+    n2 = int(t[2 + n])
+    ub = [h2f(x) for x in t[3 + n:3 + n + n2]]
+    return what, (lb, ub)
+
+
+MUT_SUPPORT = {'native': ('C', 'D', 'const'), 'functional': ('C', 'D', 'const'), 'ocp': ('D', 'const'), 'dl': (), 'dlocp': ()}
+
+
+def expected_hidden(s, fn, flags):
     """calls of the four BoxConstrProblem-backed functions that a type-erased call of `fn` makes according to the
     documented defaults (only used where the underlying problem cannot log them itself)"""
     if fn in HIDDEN:
         return [fn]
-    if fn in ('eval_ψ', 'eval_grad_ψ', 'eval_ψ_grad_ψ') and s['m'] > 0 and provD is not None:
-        if provD[NLP_OPTIONAL.index(fn)] == '0':
+    if fn in ('eval_ψ', 'eval_grad_ψ', 'eval_ψ_grad_ψ') and s['m'] > 0:
+        if flags[NLP_OPTIONAL.index(fn)] == '0':
             return ['eval_proj_diff_g']
     return []
 
@@ -410,7 +740,7 @@ def expected_hidden(s, fn, provD):
 def monitor(op, out, st):
     mon = st.setdefault('mon', Mon())
     t = op.split()
-    if out.startswith('harness-exception') or out in ('bad-op', 'bad-kind', 'bad-index', 'parse-error'):
+    if out.startswith('harness-exception') or out in ('bad-op', 'bad-kind', 'bad-index', 'parse-error', 'bad-size'):
         return f'harness: {out}'
     if t[0] == 'list':
         return None
@@ -418,167 +748,213 @@ def monitor(op, out, st):
         s = mon.new(t[1:])
         kind = s['kind']
         if kind in ('dl', 'dlocp'):
-            exp = LOAD_EXPECT.get((s['file'], s['reg']))
-            s['alive'] = out.startswith('ok')
-            if exp is None:
-                return None
-            need = []
+            key = (s['file'], s['reg'])
+            if key not in LOAD_EXPECT:
+                return f'the generator produced a plug-in variant without a documented expectation: {key}'
+            exp, exp_calls = LOAD_EXPECT[key]
+            COVER[f'load:{key[0]}/{key[1]}'] += 1
+            mo = re.fullmatch(r'(.*) regcalls=(\S+)', out)
+            if not mo:
+                return f'unparsable loader answer {out!r}'
+            dec, calls = mo.group(1), mo.group(2)
+            s['alive'] = dec.startswith('ok')
             if kind == 'dlocp' and exp.startswith('ok'):
                 # documented: nc > 0 makes get_D / eval_constr / eval_grad_constr_prod mandatory, nh > 0 eval_h,
                 # nh_N > 0 eval_h_N (ControlProblemVTable's constructor, in this order)
                 need = [f for f in ('get_D', 'eval_constr', 'eval_grad_constr_prod')
-                        if s['m'] > 0 and not (s['mask'] >> OCP_BITS.index(f)) & 1]
+                        if s['m'] > 0 and not bit(s['mask'], OCP_BITS.index(f))]
                 need += [f for f in omitted_h(s) if s['n'] > 0]
                 if need:
                     exp = 'err:missing:' + need[0]
-            if out != exp:
-                if (s['file'], s['reg']) == ('nlp', 'c20_badversion') and out == 'ok warned=1':
-                    return ('ABI mismatch reported by <name>_version() is not a load failure: the plug-in loads '
-                            f'({out}; the loader prints that the version function is missing)', K_F4)
-                if kind == 'dlocp' and exp.startswith('ok') and out == 'err:no_functions':
-                    return ('DLControlProblem: a well-formed OCP plug-in (functions table returned, ABI ok) is '
-                            'rejected with "plugin did not return any functions"', K_F2)
-                return f'loader decision for plug-in variant {s["file"]}/{s["reg"]}: got {out!r}, documented {exp!r}'
+            if calls != exp_calls:
+                return (f'plug-in variant {key[0]}/{key[1]}: the registration function ran {calls} time(s) during the load '
+                        f'attempt, documented {exp_calls} (it must not run when the library cannot be opened, the '
+                        f'registration symbol is missing or <name>_version() reports another ABI); loader answered {dec!r}')
+            if dec != exp:
+                return f'loader decision for plug-in variant {key[0]}/{key[1]}: got {dec!r}, documented {exp!r}'
             return None
         if kind == 'ocp':
             # documented: a positive dimension makes the matching functions mandatory
-            NB = OCP_BITS + ['eval_h', 'eval_h_N']
-            P = lambda f: bool((s['has'] >> NB.index(f)) & 1) and (
-                not (s['prov_mask'] >> NB.index(f)) & 1 or bool((s['pv'] >> NB.index(f)) & 1))
+            fl = s['flags_exp']
+            P = lambda f: fl[OCP_OPTIONAL.index(f)] == '1'
             need = [f for f in ('get_D', 'eval_constr', 'eval_grad_constr_prod') if s['m'] > 0 and not P(f)]
             need += [f for f in ('eval_h', 'eval_h_N') if s['n'] > 0 and not P(f)]
             s['alive'] = out == 'ok'
+            COVER[f'ocp_inst:{s["idx"]}'] += 1
+            if s['alive']:
+                COVER[f'ocp_has:{s["has"]}:{s["prov_mask"]}'] += 1
             if need and out != 'err:missing:' + need[0]:
                 return f'OCP with nc={s["m"]} lacking {need}: constructor answered {out!r}'
             if not need and out != 'ok':
                 return f'OCP constructor rejected a complete problem: {out!r}'
             return None
         s['alive'] = out == 'ok'
+        if kind == 'native':
+            COVER[f'native_inst:{s["idx"]}'] += 1
+            COVER[f'native_has:{s["has"]}:{s["prov_mask"]}'] += 1
         return None if out == 'ok' else f'session could not be created: {out}'
     s = mon.s
     if s is None or not s['alive']:
         return None if out == 'no-session' else f'op on a dead session answered {out!r}'
-    if t[0] == 'create':
-        mon.add_wrapper()
-        return None if out == f'created {len(s["w"]) - 1}' else f'create answered {out!r}'
+    kind = s['kind']
+    if t[0] in ('create', 'createref'):
+        mon.add_wrapper('ref' if t[0] == 'createref' else 'val')
+        return None if out == f'created {len(s["w"]) - 1}' else f'{t[0]} answered {out!r}'
+    if t[0] == 'mutate':
+        what, val = parse_mut(t[1:])
+        if what not in MUT_SUPPORT[kind]:
+            return None if out == 'unsupported' else f'mutate {what} on a {kind} problem answered {out!r}'
+        if out != 'ok':
+            return f'mutate {what} answered {out!r}'
+        s['ectr'] += 1
+        s['data'][what] = val
+        s['data']['epoch'] = s['ectr']
+        s['mutated'].add(what)
+        return None
     w = int(t[1])
     if w >= len(s['w']):
         return None if out == 'bad-wrapper' else f'{out!r} for a non-existent wrapper'
     me = s['w'][w]
+    if t[0] == 'mutatew':
+        what, val = parse_mut(t[2:])
+        if me['holds'] == 'ref':
+            # documented: the by-reference wrapper keeps a reference to const: the harness reports that the member
+            # cannot be assigned (a compile-time fact of `ProblemWithCounters<const Prob &>`)
+            COVER[f'mutatew_ref_refused:{kind}'] += 1
+            return None if out == 'const-reference' else f'mutatew on a by-reference wrapper answered {out!r}'
+        if what not in MUT_SUPPORT[kind]:
+            return None if out == 'unsupported' else f'mutatew {what} on a {kind} problem answered {out!r}'
+        if out != 'ok':
+            return f'mutatew {what} answered {out!r}'
+        s['ectr'] += 1
+        me['snap'][what] = val
+        me['snap']['epoch'] = s['ectr']
+        me['own_mut'] = what
+        return None
     if t[0] == 'copy':
-        mon.add_wrapper(w)
+        mon.add_wrapper(src=w)
+        if s['mutated']:
+            COVER[f'copy_after_mutation:{kind}:{me["holds"]}'] += 1
         return None if out == f'created {len(s["w"]) - 1}' else f'copy answered {out!r}'
     if t[0] == 'decouple':
         me['g'] = s['ngroups']; s['ngroups'] += 1
-        if not me['dead']:
-            me['ga'] = s['ngroups']; s['ngroups'] += 1
-        if out.startswith('crash'):
-            if me['dead']:
-                return ('decouple_evaluations() after reset_evaluations() dereferences the null counter pointer '
-                        f'({out})', K_F1)
-            return f'decouple_evaluations() crashed: {out}'
-        return None if out.startswith('ok') else f'decouple answered {out!r}'
+        return None if out == 'ok' else f'decouple_evaluations() answered {out!r}'
     if t[0] == 'reset':
         g = me['g']
         for o in s['w']:
             if o['g'] == g:
                 o['spec'] = {c: 0 for c in s['counters']}
-                o['reset_seen'] = True
-        me['dead'] = True     # what `evaluations.reset()` does: this wrapper loses its block, nothing is zeroed
         return None if out == 'ok' else f'reset answered {out!r}'
     if t[0] == 'cnt':
         spec = ','.join(str(me['spec'][c]) for c in s['counters'])
         if out == spec:
             return None
-        asis = 'null' if me['dead'] else ','.join(str(me['asis'][c]) for c in s['counters'])
-        if me['reset_seen'] and out == asis:
-            return (f'after reset_evaluations() on a wrapper of this sharing group, wrapper {w} reads counters '
-                    f'{out} — the property requires {spec} (all wrappers of the group zeroed, the reset one usable)',
-                    K_F1)
         return f'counters of wrapper {w}: {out}, but the calls made through its sharing group give {spec}'
     if t[0] == 'prov':
         head, _, tail = out.partition(' ## ')
         others = tail.split()
-        s['prov'][w] = head
-        if others:
-            s['provD'] = others[0]
-        names = OCP_OPTIONAL if s['ocp'] else NLP_OPTIONAL
-        for o in others:
-            if o != head:
-                diff = [names[i] if i < len(names) else f'supports#{i - len(names) - 1}'
-                        for i, (a, b) in enumerate(zip(head, o)) if a != b]
-                if s['kind'] == 'native' and set(diff) <= {'eval_hess_ψ_prod', 'supports#0'}:
-                    hp, h = NLP_OPTIONAL.index('eval_hess_ψ_prod'), NLP_OPTIONAL.index('eval_hess_ψ')
-                    if (s['prov_mask'] >> hp) & 1 and not (s['prov_mask'] >> h) & 1 and not (s['pv'] >> hp) & 1:
-                        return ('counted wrapper reports eval_hess_ψ_prod as provided although the problem\'s '
-                                'provides_eval_hess_ψ_prod() returns false (problem has no provides_eval_hess_ψ)', K_F3)
-                if s['ocp'] and set(diff) <= {'eval_h', 'eval_h_N'}:
-                    s['f5'] = True
-                    return (f'counted OCP wrapper reports {diff} as provided although the problem\'s provides_ '
-                            f'member returns false (no provides_eval_h / provides_eval_h_N forward): {head} vs {o}', K_F5)
-                return f'capability flags differ between wrapper and underlying problem for {diff}: {head} vs {o}'
+        exp = s['flags_exp']
+        names = OCP_OPTIONAL if s['ocp'] else NLP_OPTIONAL + ['/', 'supports_eval_hess_ψ_prod', 'supports_eval_hess_ψ']
+        who = ['counting wrapper', 'underlying problem / loader', 'reference class over the raw table / function objects']
+        for j, o in enumerate([head] + others):
+            if kind == 'dl' and j == 2:
+                # the hand-written reference class has no rule for the loader's composite flags (the expectation comes
+                # from the raw table, above); its own flags are not part of the property
+                EXEMPT['dl_reference_class_flags_not_compared(expectation_is_computed_from_the_raw_table)'] += 1
+                continue
+            if o != exp:
+                diff = [names[i] for i, (a, b) in enumerate(zip(exp, o)) if a != b] or ['<length>']
+                return (f'capability flags of the {who[min(j, 2)]} differ from what the problem provides for {diff}: '
+                        f'reported {o}, the op line prescribes {exp}')
         return None
     if t[0] == 'call':
         fn = t[2]
         r = parse_call(out)
         if r is None:
             return f'unparsable call output {out[:120]!r}'
-        W, D, R = r['W'], r.get('D'), r.get('R')
+        W, D, U, R = r['W'], r.get('D'), r.get('U'), r.get('R')
+        flags = s['flags_exp']
         msgs = []
-        keyed = None
-        # (a) the loader / function-object class against the direct reference
-        if R is not None and D is not None and (D['st'], D['log'], D['vals']) != (R['st'], R['log'], R['vals']):
-            msgs.append(f'{s["kind"]}: {fn} through the loader/class gives ({D["st"]}, ran {D["log"]}, {D["vals"][:80]}), '
-                        f'calling the underlying functions directly gives ({R["st"]}, ran {R["log"]}, {R["vals"][:80]})')
-        if s['kind'] == 'dl' and s['reg'] == 'c20_defaultinit' and D is not None and D['st'] == 'crash':
-            return (f'plug-in table obtained by default-initialisation omits {fn}: the documented default should '
-                    f'run, the loader calls an indeterminate pointer ({D["vals"]})', K_F7)
-        # (b) flags vs behaviour on the underlying problem's own type-erased view
-        provD = s.get('provD')
-        if D is not None and provD is not None:
-            m = flags_vs_behaviour(s, fn, provD, D, 'underlying problem')
-            if m and isinstance(m, tuple):
-                keyed = m
-            elif m:
-                msgs.append(m)
-        # (c) the counting wrapper against the underlying problem
-        if me['dead'] and W['st'] == 'crash':
-            # the property: the wrapper stays usable and this call is counted — keep the spec tally in step
-            for c in called_counters(s, fn, D, provD):
-                for o in s['w']:
-                    if o['g'] == me['g']:
-                        o['spec'][c] += 1
-            return (f'evaluation through a wrapper after its reset_evaluations(): {W["vals"]} (null counter pointer); '
-                    f'the underlying problem answers {D["st"] if D else "?"} (ran {D["log"] if D else "-"})', K_F1)
-        if D is not None and (W['st'], W['log'], W['vals']) != (D['st'], D['log'], D['vals']):
-            if s['kind'] == 'native' and fn == 'eval_hess_ψ_prod' and W['st'] == 'ok' and W['log'] == 'eval_hess_ψ_prod':
-                hp, h = NLP_OPTIONAL.index('eval_hess_ψ_prod'), NLP_OPTIONAL.index('eval_hess_ψ')
-                if (s['prov_mask'] >> hp) & 1 and not (s['prov_mask'] >> h) & 1 and not (s['pv'] >> hp) & 1:
-                    mon.count(w, ['hess_ψ_prod'])
-                    return ('through the counted wrapper eval_hess_ψ_prod runs the problem\'s function although the '
-                            'problem reports it as not provided (directly: ' + D['st'] + ', ran ' + D['log'] + ')', K_F3)
-            if s['ocp'] and s.get('f5') and fn in ('eval_h', 'eval_h_N') and W['log'] == fn:
-                mon.count(w, [fn[5:]])
-                return (f'through the counted OCP wrapper {fn} runs although the problem reports it as not provided '
-                        f'(directly: {D["st"]})', K_F5)
+        if D is None:
+            return f'no reference evaluation in {out[:120]!r}'
+        # no evaluation of these sessions is expected to end in an exception other than not_implemented_error
+        for X, who in ((W, 'counting wrapper'), (D, 'reference object'), (U, 'underlying problem'), (R, 'raw-table reference')):
+            if X is not None and X['st'].startswith('exc:'):
+                msgs.append(f'{fn} ({who}) ends in an unexpected exception: {X["st"]}')
+                break
+        # (a) the loader / function-object class itself against the independent reference over the raw table
+        if R is not None and U is not None:
+            absent_composite = (kind == 'dl' and fn in ('get_box_C', 'get_box_D', 'eval_inactive_indices_res_lna')
+                                and flags[NLP_OPTIONAL.index(fn)] == '0')
+            if absent_composite:
+                # flag 0 prescribed by the raw table: (b) below demands exactly not_implemented_error(fn) from the
+                # loader; the reference class, which has no flag rule, computes a value there
+                EXEMPT['dl_composite_flag_absent:loader_checked_for_not_implemented_error_instead_of_value'] += 1
+            elif (U['st'], U['log'], U['vals']) != (R['st'], R['log'], R['vals']):
+                msgs.append(f'{kind}: {fn} through the loader/class gives ({U["st"]}, ran {U["log"]}, {U["vals"][:80]}), '
+                            f'calling the underlying functions directly gives ({R["st"]}, ran {R["log"]}, {R["vals"][:80]})')
+        # (b) flags vs behaviour: on the wrapper, on its reference object and on the underlying problem
+        for X, who in ((W, 'counting wrapper'), (D, 'reference object of the wrapper'), (U, 'underlying problem')):
+            if X is not None:
+                m = flags_vs_behaviour(s, fn, flags, X, who)
+                if m:
+                    msgs.append(m)
+                    break
+        # (c) the counting wrapper against the object it must behave like: the underlying problem as it is NOW for a
+        #     by-reference wrapper, the harness's own snapshot (taken when the wrapper was made, changed with it)
+        #     for a by-value wrapper
+        if (W['st'], W['log'], W['vals']) != (D['st'], D['log'], D['vals']):
+            how = ('by-reference wrapper vs. the underlying problem as it is now' if me['holds'] == 'ref' else
+                   'by-value wrapper vs. a plain copy of the problem taken when the wrapper was made')
             msgs.append(f'{fn} through the counting wrapper gives ({W["st"]}, ran {W["log"]}, {W["vals"][:80]}), '
-                        f'the underlying problem gives ({D["st"]}, ran {D["log"]}, {D["vals"][:80]})')
+                        f'the reference gives ({D["st"]}, ran {D["log"]}, {D["vals"][:80]}) [{how}]')
+        # (e) the same from the op history alone: the data the wrapper must see (alias: current; snapshot: as copied)
+        data = mon.data_of(w)
+        if kind in ('native', 'ocp') and W['st'] == 'ok' and W['log'] != '-':
+            if r['ep'] != str(data['epoch']):
+                msgs.append(f'{fn} through the {"by-reference" if me["holds"] == "ref" else "by-value"} wrapper {w} ran on '
+                            f'problem data of stamp {r["ep"]}; the history of mutate / copy ops prescribes stamp '
+                            f'{data["epoch"]} (a by-reference wrapper sees every change of the underlying problem, a '
+                            f'by-value wrapper none after it was made)')
+        if W['st'] == 'ok' and kind in ('native', 'functional', 'ocp'):
+            ev = expected_value(s, data, fn, flags)
+            if ev is not None:
+                COVER[f'exact_value:{kind}:{fn}'] += 1
+                if W['vals'] != ev:
+                    msgs.append(f'{fn} through the {"by-reference" if me["holds"] == "ref" else "by-value"} wrapper {w} '
+                                f'returns {W["vals"][:100]}; the data it must see give {ev[:100]}')
+            # which datum the closed form reads
+            what = {'eval_f': 'const', 'eval_l_N': 'const', 'get_box_C': 'C'}.get(fn, 'D')
+            if ev is not None and what in s['mutated']:
+                COVER[f'mutation:{kind}:{what}:{me["holds"]}'] += 1
+            if ev is not None and me.get('own_mut') == what:
+                COVER[f'mutatew_val:{kind}'] += 1
+        # (p) the OCP loader's own projections: exact values from the plug-in's parameters
+        if kind == 'dlocp' and fn in ('eval_proj_diff_g', 'eval_proj_multipliers'):
+            a, vecs = parse_args(t[3:], True)
+            ev = expected_projection(s, fn, a, vecs[5])
+            COVER[f'proj:getD={bit(s["mask"], 0)}:getDN={bit(s["mask"], 1)}:nc={"0" if s["m"] == 0 else ">0"}'] += 1
+            for X, who in ((W, 'counting wrapper'), (U, 'loader')):
+                if ev is None:
+                    msgs.append(f'{fn}: the op line carries {len(vecs[5])} stage values, expected {(OCP_N + 1) * s["m"]}')
+                    break
+                if X is not None and (X['st'] != 'ok' or X['vals'] != ev):
+                    msgs.append(f'{fn} of the OCP loader ({who}) gives ({X["st"]}, {X["vals"][:100]}); stage box '
+                                f'{"get_D" if bit(s["mask"], 0) else "unbounded"}, terminal box '
+                                f'{"get_D_N" if bit(s["mask"], 1) else "as the stage box"}: documented {ev[:100]}')
+                    break
         # (d) counters: one increment per call made to the underlying problem through this sharing group
-        names = called_counters(s, fn, W, provD)
+        names = called_counters(s, fn, W, flags)
         mon.count(w, names)
         spec = ','.join(str(me['spec'][c]) for c in s['counters'])
         if r['cnt'] != spec and not msgs:
-            asis = 'null' if me['dead'] else ','.join(str(me['asis'][c]) for c in s['counters'])
-            if me['reset_seen'] and r['cnt'] == asis:
-                return (f'counters after a reset in this sharing group: wrapper {w} reads {r["cnt"]}, the property '
-                        f'requires {spec}', K_F1)
             msgs.append(f'after {fn} (underlying calls {W["log"]}) wrapper {w} reads counters {r["cnt"]}, '
                         f'the calls made through its sharing group give {spec}')
-        return msgs[0] if msgs else keyed
-    return None
+        return msgs[0] if msgs else None
+    return f'unknown op {t[0]!r}'
 
 
-def called_counters(s, fn, X, prov_bits):
+def called_counters(s, fn, X, flags):
     """counter names for the calls that reached the underlying problem, from the underlying call log (native
     problems log every member) plus, for DL / FunctionalProblem, the BoxConstrProblem-backed members"""
     if X is None or X['st'] == 'crash':
@@ -592,33 +968,45 @@ def called_counters(s, fn, X, prov_bits):
         if c in valid and not (hidden and f in HIDDEN):
             names.append(c)
     if hidden and not s['ocp'] and not X['st'].startswith('ni:'):
-        names += [f[5:] for f in expected_hidden(s, fn, prov_bits)]
+        names += [f[5:] for f in expected_hidden(s, fn, flags)]
     return names
 
 
 def flags_vs_behaviour(s, fn, bits, X, who):
-    """provided/supported ⇒ no not_implemented_error; absent (no computing default) ⇒ exactly that error"""
+    """provided/supported ⇒ no not_implemented_error (and no crash); absent (no computing default) ⇒ exactly that error"""
+    if X['st'] == 'crash':
+        return f'{who}: calling {fn} crashes ({X["vals"]})'
     if s['ocp']:
         if fn not in OCP_OPTIONAL:
+            if X['st'].startswith('ni:'):
+                return f'{who}: required function {fn} raises {X["st"]}'
             return None
         P = lambda f: bits[OCP_OPTIONAL.index(f)] == '1'
         if P(fn):
-            if X['st'].startswith('ni:') or X['st'] == 'crash':
-                return f'{who}: {fn} is reported as provided but calling it gives {X["st"]}'
+            if X['st'].startswith('ni:'):
+                return f'{who}: {fn} is provided but calling it gives {X["st"]}'
             return None
         if fn in OCP_THROWING:
-            if not X['st'].startswith('ni:'):
-                return f'{who}: {fn} is reported as absent but calling it gives {X["st"]} instead of not_implemented_error'
+            # two older defaults name themselves with a `default_` prefix
+            ok = ('ni:' + fn, 'ni:default_' + fn) if fn.startswith('eval_add_') and fn.endswith('prod_masked') else ('ni:' + fn,)
+            if X['st'] not in ok:
+                return f'{who}: {fn} is absent but calling it gives {X["st"]} instead of not_implemented_error("{fn}")'
             return None
-        target = fn if fn in OCP_NULL else OCP_VIA.get(fn)
-        if target and not P(target) and fn in OCP_NULL + list(OCP_VIA):
-            if X['st'] == 'crash':
-                return (f'{who}: {fn} is reported as absent; calling it goes through a null vtable entry '
-                        f'({X["vals"]}) instead of raising not_implemented_error', K_F6)
-            if not X['st'].startswith('ni:'):
-                return f'{who}: absent {fn} gives {X["st"]}'
+        if fn in OCP_VIA:
+            tgt = OCP_VIA[fn]
+            if not P(tgt):
+                if X['st'] != 'ni:' + tgt:
+                    return (f'{who}: {fn} and {tgt} are both absent: the documented default forwards to {tgt}, which '
+                            f'raises not_implemented_error("{tgt}"); got {X["st"]}')
+            elif X['st'].startswith('ni:'):
+                return f'{who}: absent {fn} has the default "{tgt}", which is provided, but raises {X["st"]}'
+            return None
+        if X['st'].startswith('ni:'):
+            return f'{who}: {fn} has a documented computing default but raises {X["st"]}'
         return None
     if fn not in NLP_OPTIONAL:
+        if X['st'].startswith('ni:'):
+            return f'{who}: required function {fn} raises {X["st"]}'
         return None
     i = NLP_OPTIONAL.index(fn)
     main, _, sup = bits.partition('/')
@@ -626,15 +1014,75 @@ def flags_vs_behaviour(s, fn, bits, X, who):
     supported = provided or (fn == 'eval_hess_ψ_prod' and sup[0] == '1') or (fn == 'eval_hess_ψ' and sup[1] == '1')
     if supported:
         if X['st'].startswith('ni:'):
-            return f'{who}: {fn} is reported as {"provided" if provided else "supported"} but raises {X["st"]}'
+            return f'{who}: {fn} is {"provided" if provided else "supported"} but raises {X["st"]}'
         return None
     if fn in NLP_THROWING and not (fn == 'eval_jac_g' and s['m'] == 0):
         if X['st'] != 'ni:' + fn:
-            return (f'{who}: {fn} is reported as absent but calling it gives {X["st"]} instead of '
+            return (f'{who}: {fn} is absent but calling it gives {X["st"]} instead of '
                     f'not_implemented_error("{fn}")')
     elif X['st'].startswith('ni:'):
         return f'{who}: {fn} has a documented default but raises {X["st"]}'
     return None
+
+
+# ------------------------------------------------------------------ required coverage
+
+def required_coverage(natives, ocps, thorough):
+    """classes that every run must have exercised (the property's quantifier: all call sequences incl. copy / decouple /
+    reset, all subsets of optional functions of native and plug-in problems, the load failures, and — transparency —
+    evaluation after the underlying problem changed)"""
+    req = [f'load:{k[0]}/{k[1]}' for k in LOAD_EXPECT]
+    req += [f'native_inst:{i}' for i, _, _ in natives] + [f'ocp_inst:{i}' for i, _, _ in ocps]
+    for kind, whats in (('native', 'CD') , ('functional', 'CD'), ('ocp', 'D')):
+        for what in list(whats) + ['const']:
+            req += [f'mutation:{kind}:{what}:ref', f'mutation:{kind}:{what}:val']
+        req += [f'copy_after_mutation:{kind}:ref', f'copy_after_mutation:{kind}:val', f'mutatew_val:{kind}',
+                f'mutatew_ref_refused:{kind}']
+    req += ['exact_value:native:eval_f', 'exact_value:native:get_box_C', 'exact_value:native:get_box_D',
+            'exact_value:functional:eval_f', 'exact_value:functional:get_box_C', 'exact_value:ocp:get_D',
+            'exact_value:ocp:eval_l_N', 'exact_value:ocp:get_D_N']
+    if thorough:
+        # members absent at compile time: every single optional member missing / the only one present
+        all21, all15 = (1 << 21) - 1, (1 << 15) - 1
+        req += [f'native_has:{all21 ^ (1 << b)}:0' for b in range(21)] + [f'native_has:{1 << b}:0' for b in range(21)]
+        req += [f'ocp_has:{all15 ^ (1 << b)}:0' for b in range(15)] + [f'ocp_has:{1 << b}:0' for b in range(15)]
+    req += [f'proj:getD={a}:getDN={b}:nc=0' for a in (0, 1) for b in (0, 1)]
+    req += ['proj:getD=1:getDN=1:nc=>0', 'proj:getD=1:getDN=0:nc=>0']
+    return req
+
+
+def stream_coverage(ops):
+    """coverage classes that are a property of the generated op stream (which tables / masks were loaded)"""
+    dl_masks, ocp_masks, nat_pv = set(), set(), set()
+    for o in ops:
+        if o.startswith('new dl nlp c20_register '):
+            dl_masks.add(int(o.split()[4]))
+        elif o.startswith('new dlocp ocp c20_ocp_register '):
+            t = o.split()
+            if t[6] == '0':          # nc = 0: every subset of the 13 optional entries loads
+                ocp_masks.add(int(t[4]))
+        elif o.startswith('new native 2 '):
+            nat_pv.add(int(o.split()[5]))
+    cov = {}
+    all20 = (1 << 20) - 1
+    cov['dl_single_presence'] = sum(1 for b in range(20) if (1 << b) in dl_masks)
+    cov['dl_single_omission'] = sum(1 for b in range(20) if (all20 ^ (1 << b)) in dl_masks)
+    cov['ocp_plugin_single_presence'] = sum(1 for b in range(13) if (1 << b) in ocp_masks)
+    cov['ocp_plugin_single_omission'] = sum(1 for b in range(13) if (ALL13 ^ (1 << b)) in ocp_masks)
+    pairs = 0
+    for a_, b_ in OCP_PAIRS:
+        ba, bb = 1 << OCP_BITS.index(a_), 1 << OCP_BITS.index(b_)
+        for combo in (0, ba, bb, ba | bb):
+            pairs += (combo in ocp_masks) + (((ALL13 & ~(ba | bb)) | combo) in ocp_masks)
+    cov['ocp_plugin_coupled_pairs'] = pairs
+    cov['ocp_plugin_subsets'] = len(ocp_masks)
+    all21 = (1 << 21) - 1
+    cov['native_single_not_provided'] = sum(1 for b in range(21) if (all21 ^ (1 << b)) in nat_pv)
+    cov['native_single_provided'] = sum(1 for b in range(21) if (1 << b) in nat_pv)
+    need = {'dl_single_presence': 20, 'dl_single_omission': 20, 'ocp_plugin_single_presence': 13,
+            'ocp_plugin_single_omission': 13, 'ocp_plugin_coupled_pairs': 32, 'native_single_not_provided': 21,
+            'native_single_provided': 21}
+    return cov, need
 
 
 # ------------------------------------------------------------------ main flow
@@ -643,43 +1091,53 @@ def strip(line):
     return line.partition(' ## ')[0].strip()
 
 
+def harness_sources():
+    return [os.path.join(HARNESS, 'c20.cpp'), C.REPO + '/src/interop/dl/src/dl-problem.cpp',
+            C.REPO + '/src/alpaqa/src/util/dl.cpp'] + C.repo_lib_sources(
+        ['problem/type-erased-problem.cpp', 'problem/ocproblem.cpp', 'util/demangled-typename.cpp'])
+
+
 def main(argv):
     tier = C.tier_from_argv(argv)
     thorough = tier == 'thorough'
     rep = C.Report(PID, tier, 'proof')
+    EXEMPT.clear(); COVER.clear()
     rep.cov['trusted_base'] = [
         'Lean 4.33 kernel + Mathlib tactics (axioms: propext, Classical.choice, Quot.sound)',
         'gen/gen_c20.py (regex/brace-matching translator of the one-line forwarding methods, provides_ bodies, '
         'vtable defaults, dl-problem.cpp forwarding lines, constructor check list, dl-problem.h typedefs; and, read '
         'independently of those: the fields of the two C structs, the vtable structs\' declared members, the type-erased '
-        'classes\' member lists and dispatch definitions, the text of the two ALPAQA_TE_*_METHOD macros)',
-        'hand models in Alpaqa/Model/C20.lean (counter heap, resolveNLP/resolveOCP = default composition of '
-        'type-erased-problem.tpp / ocproblem.tpp, loader interpreter) tied by op-sequence correspondence on the '
-        'explored sequences only',
-        'std::shared_ptr / dlopen / dlsym semantics as documented; timers not modelled (only counters)',
+        'classes\' member lists and dispatch definitions, the text of the two ALPAQA_TE_*_METHOD macros, the four '
+        'problem_with_counters helpers, DLControlProblem\'s box initialisation and projection bodies)',
+        'hand models in Alpaqa/Model/C20.lean (counter heap, wrapper data with aliasing, resolveNLP/resolveOCP = default '
+        'composition of type-erased-problem.tpp / ocproblem.tpp, loader interpreter, box projections) tied by '
+        'op-sequence correspondence on the explored sequences only',
+        'std::shared_ptr / dlopen / dlsym / C++ reference semantics as documented; timers not modelled (only counters)',
         'a crash of the real code is observed in a forked child (signal number), never in the model',
+        'the harness\'s reference objects (plain copies of the problem classes, classes over the raw plug-in table) and '
+        'the plug-ins of harness/c20_plugins',
     ]
     rep.cov['rule'] = (
-        'sessions = one underlying problem + counting wrappers; seeded random walks over call(28 NLP / 30 OCP '
-        'functions, random and special-value arguments) / copy / decouple / reset / cnt / prov; underlying problems: '
-        'native class template instantiations (HAS, PROV masks from the harness `list`, random run-time provides values), '
-        'FunctionalProblem (all 64 function-object subsets in thorough), C-ABI plug-ins (table chosen by bitmask: '
-        'single bits, random subsets, thorough: all subsets of the 10 interacting entries × m∈{0,2}), every load-failure '
-        'variant, OCP natives and OCP plug-ins (incl. tables that omit eval_h / eval_h_N, nh = 0 and nh > 0); '
-        'distinct = distinct call lines')
+        'sessions = one underlying problem + counting wrappers made by the library\'s helper functions (by value and by '
+        'reference); seeded random walks over call(28 NLP / 30 OCP functions, random and special-value arguments) / copy / '
+        'decouple / reset / cnt / prov / mutate (bounds, constant cost, function object) / mutatew; underlying problems: '
+        'native class template instantiations (HAS, PROV masks from the harness `list`, run-time provides values: every '
+        'single one off / on), FunctionalProblem (all 64 function-object subsets in thorough), C-ABI plug-ins (table '
+        'chosen by bitmask: every single entry present / absent, random subsets; thorough: all subsets of the 10 '
+        'interacting entries × m∈{0,2} and all 2^20 tables in the flag sweep), every load-failure variant for both '
+        'loaders, OCP natives and OCP plug-ins (every single entry present / absent, the coupled X / X_N pairs; '
+        'thorough: all 2^13 tables; tables that omit eval_h / eval_h_N, nh = 0 and nh > 0); distinct = distinct call lines')
     rep.assumptions = ['mask lengths of the masked OCP functions are fixed by convention between harness and plug-in '
                        '(the C ABI does not carry them)']
-    ps = C.proof_stage(rep, PID, ['gen_c20.py'], ['Alpaqa.Props.C20', 'Alpaqa.Props.C20_Coverage'], driver='drv_c20',
+    ps = C.proof_stage(rep, PID, ['gen_c20.py'], ['Alpaqa.Props.C20', 'Alpaqa.Props.C20_Coverage', 'Alpaqa.Props.C20_Wrappers', 'Alpaqa.Props.C20_Proj'],
+                       driver='drv_c20',
                        extra_sources=['Alpaqa/Model/C20.lean', 'Alpaqa/Gen/C20.lean', 'Driver/C20.lean'])
     broken = list(ps['broken'])
 
     plug_dir, plog = build_plugins()
     if plug_dir is None:
         broken.append(plog)
-    srcs = [os.path.join(HARNESS, 'c20.cpp'), C.REPO + '/src/interop/dl/src/dl-problem.cpp',
-            C.REPO + '/src/alpaqa/src/util/dl.cpp'] + C.repo_lib_sources(
-        ['problem/type-erased-problem.cpp', 'problem/ocproblem.cpp', 'util/demangled-typename.cpp'])
-    exe, log = C.build_exe('c20', srcs, ['-DC20_THOROUGH'] if thorough else None)
+    exe, log = C.build_exe('c20', harness_sources(), ['-DC20_THOROUGH'] if thorough else None)
     if exe is None:
         broken.append('harness does not compile against the working tree: ' + log[-1500:])
     found_input = False
@@ -699,10 +1157,8 @@ def main(argv):
                     else:
                         cur.append(tuple(int(x) for x in tok.split(':')))
             rng = random.Random(C.seed() * 1000003 + (17 if thorough else 0))
-            n = 2500 if thorough else 300
+            n = 2500 if thorough else 260
             ops = gen_ops(rng, n, (natives, ocps), thorough)
-
-            seen_keys = set()
 
             def run_monitors(ops, hout, label):
                 nonlocal found_input
@@ -711,16 +1167,11 @@ def main(argv):
                     try:
                         m = monitor(o, h, st)
                     except Exception as e:
-                        m = f'monitor crashed on {o[:60]!r} -> {h[:80]!r}: {e!r}'
+                        m = f'monitor could not read {o[:60]!r} -> {h[:80]!r}: {e!r}'
                     if m:
                         key = None
                         if isinstance(m, tuple):
                             m, key = m
-                        if key is not None:
-                            # one report per (former) finding: the first failing input of each kind
-                            if key in seen_keys:
-                                continue
-                            seen_keys.add(key)
                         before = len(rep.violations)
                         # replay context: the whole session up to this op
                         j = i
@@ -729,13 +1180,12 @@ def main(argv):
                         rep.violation(f'{label}: {m}', {'session_ops': ops[j:i + 1], 'impl_out': h, 'index': i}, True, key=key)
                         if len(rep.violations) > before:
                             found_input = True
-                            if key is None:
-                                bad += 1
-                                if bad >= 5:
-                                    break
+                            bad += 1
+                            if bad >= 5:
+                                break
                     if o.startswith('call'):
                         distinct.add(o)
-                return bad + len(seen_keys)
+                return bad
 
             hout, rc, err = C.run_lines(cmd, ops, timeout=1500)
             if rc != 0 or len(hout) != len(ops):
@@ -755,6 +1205,17 @@ def main(argv):
                     kinds[o.split()[1]] = kinds.get(o.split()[1], 0) + 1
             rep.cov['sessions'] = kinds
             rep.cov['outcomes'] = {k: sum(1 for h in hout if h.startswith(k)) for k in ('ok', 'ni:', 'crash', 'err:')}
+            # required coverage: a class that was never exercised is a broken tie
+            req = required_coverage(natives, ocps, thorough)
+            missing = [c for c in req if COVER[c] == 0]
+            scov, need = stream_coverage(ops)
+            if thorough:
+                need['ocp_plugin_subsets'] = 1 << 13
+            missing += [f'{k} ({scov[k]} of {v})' for k, v in need.items() if scov[k] < v]
+            rep.cov['required_coverage'] = {'classes': len(req) + len(need), 'missing': missing,
+                                            'counts': {k: COVER[k] for k in sorted(COVER)}, 'stream': scov}
+            if missing and not rep.violations:
+                broken.append('required coverage not met (generator / harness no longer exercise): ' + ', '.join(missing[:12]))
             dexe = C.driver_exe('drv_c20')
             if os.path.exists(dexe):
                 dout, rc, err = C.run_lines(dexe, ops, timeout=1500)
@@ -786,6 +1247,7 @@ def main(argv):
                         break
         probe_future.result()
     rep.cov['distinct_nontrivial'] = len(distinct)
+    rep.cov['exemptions'] = dict(EXEMPT)
     if broken:
         for b in broken:
             rep.note('BROKEN: ' + b[:700])
@@ -798,7 +1260,7 @@ def main(argv):
 
 def abi_sweep(rep, cmd, dexe, broken, bits=20, chunk_bits=15):
     """thorough tier: every subset of the `bits` optional C-ABI table entries, for m ∈ {0, 2}: load, wrap, compare
-    the capability flags (wrapper = loader = direct reference = Lean driver) and, for every 8th table, one call."""
+    the capability flags (wrapper = loader = what the raw table prescribes = Lean driver) and, for every 8th table, one call."""
     rng = random.Random(C.seed() * 31337)
     total = bad = 0
     first_diff = None
@@ -823,13 +1285,10 @@ def abi_sweep(rep, cmd, dexe, broken, bits=20, chunk_bits=15):
             for k, (o, h) in enumerate(zip(ops, hout)):
                 mres = monitor(o, h, st)
                 if mres:
-                    key = None
-                    if isinstance(mres, tuple):
-                        mres, key = mres
                     j = k
                     while j > 0 and not ops[j].startswith('new '):
                         j -= 1
-                    rep.violation(f'ABI sweep: {mres}', {'session_ops': ops[j:k + 1], 'impl_out': h}, True, key=key)
+                    rep.violation(f'ABI sweep: {mres}', {'session_ops': ops[j:k + 1], 'impl_out': h}, True)
                     bad += 1
                     if bad >= 3:
                         return
@@ -848,10 +1307,7 @@ def replay(r):
         print('nothing to replay (static finding):', r.get('what'))
         return 0
     plug_dir, plog = build_plugins()
-    srcs = [os.path.join(HARNESS, 'c20.cpp'), C.REPO + '/src/interop/dl/src/dl-problem.cpp',
-            C.REPO + '/src/alpaqa/src/util/dl.cpp'] + C.repo_lib_sources(
-        ['problem/type-erased-problem.cpp', 'problem/ocproblem.cpp', 'util/demangled-typename.cpp'])
-    exe, log = C.build_exe('c20', srcs, ['-DC20_THOROUGH'] if r.get('tier') == 'thorough' else None)
+    exe, log = C.build_exe('c20', harness_sources(), ['-DC20_THOROUGH'] if r.get('tier') == 'thorough' else None)
     hout, rc, err = C.run_lines([exe, plug_dir], ops)
     st, bad = {}, 0
     for o, h in zip(ops, hout):
